@@ -241,3 +241,7 @@ MC("c04-c-mid-offset", "C04", ("__pyx_v_outl = (__pyx_v_a.x + atan2(__pyx_v_by, 
 MC("c05-c-mid-offset", "C05", ("__pyx_v_outb = atan2((sin(__pyx_v_a.y) + sin(__pyx_v_b.y)), hypot((cos(__pyx_v_a.y) + __pyx_v_bx), __pyx_v_by));", "__pyx_v_outb = atan2((sin(__pyx_v_a.y) + sin(__pyx_v_b.y)), hypot((cos(__pyx_v_a.y) + __pyx_v_bx), __pyx_v_by)) * (1 + 1e-11);"))
 MC("c07-c-lon-test", "C07", ("  __pyx_t_7 = (__pyx_v_tile_lon_min < __pyx_v_bbox_lon_max);", "  __pyx_t_7 = (__pyx_v_tile_lon_max < __pyx_v_bbox_lon_max);"))
 MC("c06-c-quadrant-corners", "C06", ("__pyx_f_6toasty_10_libtoasty__subsample(__pyx_v_le, __pyx_v_cen, __pyx_v_lo, __pyx_v_ll, __pyx_t_4, __pyx_t_6, __pyx_v_increasing)", "__pyx_f_6toasty_10_libtoasty__subsample(__pyx_v_le, __pyx_v_cen, __pyx_v_lo, __pyx_v_ll, __pyx_t_6, __pyx_t_4, __pyx_v_increasing)"))
+
+# ---- regression of the shutdown-race repair (flag looked at after the empty poll again)
+M("c03-flag-after-poll", "C03", ("pyramid.py", "            args = ready_queue.get(True, timeout=1)\n        except Empty:\n            if done:", "            args = ready_queue.get(True, timeout=1)\n        except Empty:\n            if done_event.is_set():"))
+M("c03-mtan-flag-after-poll", "C03", ("multi_tan.py", "        except Empty:\n            if done:", "        except Empty:\n            if done_event.is_set():"))
